@@ -216,6 +216,21 @@ func (ex *Exec) callModular(fi *FuncInfo, recv *Value, args []Value, st *State, 
 	if con.readsClock {
 		ex.advanceClock(st)
 	}
+	bs := types.NewSlice(types.Typ[types.Uint8])
+	if con.seals {
+		st.ghost["aead.seal.aead"] = scalarV(nil, freshVar("aead", sortRef))
+		for _, k := range []string{"aead.seal.ad", "aead.seal.pt"} {
+			v := freshValue(k, bs)
+			st.ghost[k] = v
+		}
+	}
+	if con.opens {
+		st.ghost["aead.open.aead"] = scalarV(nil, freshVar("aead", sortRef))
+		for _, k := range []string{"aead.open.ad", "aead.open.nonce", "aead.open.ct"} {
+			v := freshValue(k, bs)
+			st.ghost[k] = v
+		}
+	}
 	if con.allocates {
 		na := freshVar("alloc", sortMath)
 		st.assume(mkCmp("le", st.alloc, na))
@@ -666,8 +681,8 @@ func (ex *Exec) evalBuiltin(name string, call *ast.CallExpr, st *State) []Value 
 			st.become(sub)
 		} else {
 			base := len(st.pc)
-			sub.assume(mkNot(isNil))
-			st.assume(isNil)
+			sub.decide(mkNot(isNil))
+			st.decide(isNil)
 			st.become(mergeStates(base, []*State{sub, st.clone()}))
 		}
 		return nil
@@ -751,7 +766,7 @@ func (ex *Exec) evalAppend(call *ast.CallExpr, st *State) Value {
 		// in place
 		base := len(st.pc)
 		inpl := st.clone()
-		inpl.assume(fits)
+		inpl.decide(fits)
 		if !isStr {
 			ex.copyRange(inpl, et, s.L[".ref"], idxAdd(s.L[".off"], s.L[".len"]), b.L[".ref"], b.L[".off"], blen)
 		} else {
@@ -759,7 +774,7 @@ func (ex *Exec) evalAppend(call *ast.CallExpr, st *State) Value {
 		}
 		inplV := Value{T: s.T, L: map[string]*Term{".ref": s.L[".ref"], ".off": s.L[".off"], ".len": newLen, ".cap": s.L[".cap"]}}
 		grow := st.clone()
-		grow.assume(mkNot(fits))
+		grow.decide(mkNot(fits))
 		ref := grow.newRef()
 		ncap := freshVar("newcap", sortInt)
 		grow.assume(mkCmp("le", newLen, ncap))
@@ -793,7 +808,7 @@ func (ex *Exec) evalAppend(call *ast.CallExpr, st *State) Value {
 	fits := mkCmp("le", newLen, s.L[".cap"])
 	base := len(st.pc)
 	inpl := st.clone()
-	inpl.assume(fits)
+	inpl.decide(fits)
 	if !inpl.dead {
 		for i, e := range elems {
 			lv := &LValue{kind: lvElem, rootT: et, ref: s.L[".ref"], idx: mkArith("add", idxAdd(s.L[".off"], s.L[".len"]), mkInt(sortInt, int64(i)))}
@@ -803,7 +818,7 @@ func (ex *Exec) evalAppend(call *ast.CallExpr, st *State) Value {
 	}
 	inplV := Value{T: s.T, L: map[string]*Term{".ref": s.L[".ref"], ".off": s.L[".off"], ".len": newLen, ".cap": s.L[".cap"]}}
 	grow := st.clone()
-	grow.assume(mkNot(fits))
+	grow.decide(mkNot(fits))
 	var growV Value
 	if !grow.dead {
 		ref := grow.newRef()
@@ -851,7 +866,7 @@ func (ex *Exec) copyRange(st *State, et types.Type, dref, doff, sref, soff, n *T
 		j := freshVar("j", sortInt)
 		inside := mkAnd(mkCmp("le", doff, j), mkCmp("lt", j, idxAdd(doff, n)))
 		body := mkEq(mkSelect(nd, j), mkIte(inside, mkSelect(src, idxAdd(soff, idxSub(j, doff))), mkSelect(dst, j)))
-		st.assume(mkQuant("forall", []*Term{j}, body))
+		st.assume(mkQuant("forall", []*Term{j}, body, []*Term{mkSelect(nd, j)}))
 		st.setRegionArr(et, l, dref, nd)
 	}
 }
